@@ -1,24 +1,29 @@
 (** C04 — proofs about the model of C03/Model.v read in the "valid implies accepted" direction. *)
-From V Require Import Base.Util Gql.Ast C03.Model C03.Spec C03.Witness C03.Proofs C03.Proofs2.
+From V Require Import Base.Util Gql.Ast C03.Model C03.Spec C03.Witness C03.Proofs C03.Proofs2 C03.Proofs3.
 
-(** * Refutations: spec-valid documents the current code rejects *)
+(** * Spec-valid forms that used to be rejected and are accepted since the fixes in /repo *)
 
-Lemma variable_default_position_refuted :
-  spec_valid w_schema_0 w_doc_15 = true /\ check_operation_document w_schema_0 w_doc_15 <> [].
-Proof. split; [vm_compute; reflexivity | vm_compute; discriminate]. Qed.
+(** commit aff743c: a nullable variable may be used where the argument or input field has a default value *)
+Lemma variable_default_position_now_accepted :
+  spec_valid w_schema_0 w_doc_15 = true /\ check_operation_document w_schema_0 w_doc_15 = [].
+Proof. split; vm_compute; reflexivity. Qed.
 
-Lemma subscription_same_field_refuted :
-  spec_valid w_schema_0 w_doc_16 = true /\ check_operation_document w_schema_0 w_doc_16 <> [].
-Proof. split; [vm_compute; reflexivity | vm_compute; discriminate]. Qed.
+(** commit a3d3d08: response keys are counted, not selections: `subscription S { s s }` and `{ s ...F }` with F selecting s
+    have one root field; `{ s t: s }` has two *)
+Lemma subscription_same_field_now_accepted :
+  spec_valid w_schema_0 w_doc_16 = true /\ check_operation_document w_schema_0 w_doc_16 = []
+  /\ spec_valid w_schema_0 w_doc_23 = true /\ check_operation_document w_schema_0 w_doc_23 = []
+  /\ rule_ok w_schema_0 w_doc_24 R_single_subscription_root = false
+  /\ (exists p i, check_operation_document w_schema_0 w_doc_24 = [mkErr SubscriptionMustHaveExactlyOneRootField p i]).
+Proof. repeat split; try (vm_compute; reflexivity). do 2 eexists. vm_compute. reflexivity. Qed.
 
 (** * Non-vacuity: valid documents of the corpus are accepted *)
 Example valid_documents_accepted :
   forallb (fun D => spec_valid w_schema_0 D && match check_operation_document w_schema_0 D with [] => true | _ => false end)
-          [w_doc_6; w_doc_7; w_doc_14] = true.
+          [w_doc_6; w_doc_7; w_doc_14; w_doc_15; w_doc_16; w_doc_23] = true.
 Proof. vm_compute. reflexivity. Qed.
 
-(** * check_value is complete for "Values of Correct Type" (with the variable rule read without
-      hasLocationDefaultValue, which the code does not implement — see the refutation above) *)
+(** * check_value is complete for "Values of Correct Type" and IsVariableUsageAllowed (both halves) *)
 
 Lemma Forall_flat_map_inv {A B} (P : B -> Prop) (f : A -> list B) l :
   Forall P (flat_map f l) -> forall x, In x l -> Forall P (f x).
@@ -66,20 +71,34 @@ Proof.
   rewrite forallb_forall in Hc. specialize (Hc _ Hg). cbn in Hc. rewrite forallb_forall in Hc. apply Hc, Hf.
 Qed.
 
+Lemma var_uses_ld dp S v t ld : is_var v = false -> var_uses dp S v t ld = var_uses dp S v t false.
+Proof. destruct v; intros H; try discriminate H; reflexivity. Qed.
+
+Lemma allowed_ld_irrelevant vd t ld : ty_is_nonnull t = false -> variable_usage_allowed vd t ld = variable_usage_allowed vd t false.
+Proof. destruct t; intros H; try discriminate H; reflexivity. Qed.
+
+Lemma flat_map_all_nil' {A B} (f : A -> list B) l : (forall x, In x l -> f x = []) -> flat_map f l = [].
+Proof.
+  induction l as [|a l IH]; intros H; [reflexivity|]. cbn [flat_map].
+  rewrite (H a (or_introl eq_refl)). apply IH. intros x Hx. apply H. right. exact Hx.
+Qed.
+
+Lemma concat_all_nil {A} (l : list (list A)) : (forall x, In x l -> x = []) -> concat l = [].
+Proof.
+  induction l as [|a l IH]; intros H; [reflexivity|]. cbn [concat].
+  rewrite (H a (or_introl eq_refl)). apply IH. intros x Hx. apply H. right. exact Hx.
+Qed.
+
 Section ValueComplete.
   Variable S : tsdoc.
   Variable vars : option vardefs.
   Hypothesis Hwf : schema_wf S = true.
   Hypothesis Hclosed : input_types_closed S = true.
 
-  Definition use_strict (u : var_use) : Prop :=
-    exists vd, get_variable_definition vars (u_name u) = Some vd
-      /\ forall t, u_type u = Some t -> variable_usage_allowed vd t false = true.
-
-  Lemma variable_complete n p t ld :
-    use_strict (mkUse n (Some t) ld) -> check_variable_value vars n p t = [].
+  Lemma variable_complete n p t :
+    use_ok vars (mkUse n (Some t) false) -> check_variable_value vars n p t = [].
   Proof.
-    intros [vd [Hvd Hall]]. cbn [u_name u_type] in *. specialize (Hall t eq_refl).
+    intros [vd [Hvd Hall]]. cbn [u_name u_type u_loc_default] in *. specialize (Hall t eq_refl).
     unfold check_variable_value. rewrite Hvd. unfold variable_usage_allowed in Hall.
     assert (Hd : match vd_default vd with Some (VNull _) => false | Some _ => true | None => false end
                  = match vd_default vd with Some d => negb (value_is_null d) | None => false end).
@@ -98,6 +117,39 @@ Section ValueComplete.
       rewrite E. reflexivity.
   Qed.
 
+  (** expected_type_of_location, the converse of [var_loc_sound] *)
+  Lemma var_loc_complete d n p :
+    ty_wf (iv_type d) = true ->
+    use_ok vars (mkUse n (Some (iv_type d)) (has_default d)) ->
+    check_variable_value vars n p (loc_type d (VVar n p)) = [].
+  Proof.
+    intros Hty Hu. unfold loc_type. destruct (iv_type d) as [tn|inner|tp ti] eqn:Et.
+    - apply variable_complete. destruct Hu as [vd [H1 H2]]. exists vd. split; [exact H1|]. intros t E. cbn [u_type u_loc_default] in *.
+      injection E as <-. rewrite <- (allowed_ld_irrelevant vd _ (has_default d)); [apply H2; reflexivity | reflexivity].
+    - unfold has_default in Hu. destruct (iv_default d) as [dv|]; [|apply variable_complete, Hu].
+      assert (Hinner : ty_is_nonnull inner = false) by (destruct inner; [reflexivity | discriminate Hty | reflexivity]).
+      destruct Hu as [vd [Hvd Hall]]. cbn [u_name u_type u_loc_default] in *. specialize (Hall _ eq_refl).
+      unfold check_variable_value. rewrite Hvd. unfold variable_usage_allowed in Hall. rewrite orb_true_r in Hall.
+      assert (Hc : type_compat (vd_type vd) inner = true).
+      { rewrite type_compat_spec. destruct (vd_type vd) as [vn|vi|vp vi] eqn:Ev; try exact Hall.
+        cbn [types_compatible] in Hall. destruct inner; try discriminate Hinner; exact Hall. }
+      destruct inner; try discriminate Hinner; rewrite Hc; reflexivity.
+    - apply variable_complete. destruct Hu as [vd [H1 H2]]. exists vd. split; [exact H1|]. intros t E. cbn [u_type u_loc_default] in *.
+      injection E as <-. rewrite <- (allowed_ld_irrelevant vd _ (has_default d)); [apply H2; reflexivity | reflexivity].
+  Qed.
+
+  Lemma cviv_complete : forall v, Forall (use_ok vars) (var_uses true S v None false) -> check_variables_in_value vars v = [].
+  Proof.
+    induction v as [n p|p l|p l|p l|p b|p|p l|p vs IHvs|p fs IHfs] using value_ind'; intros H; try reflexivity.
+    - cbn [var_uses] in H. inversion H as [|? ? [vd [Hvd _]] _]; subst. cbn [check_variables_in_value u_name] in *. rewrite Hvd. reflexivity.
+    - cbn [check_variables_in_value]. rewrite deep_list_unfold in H. apply flat_map_all_nil'. intros e He.
+      rewrite Forall_forall in IHvs. apply (IHvs e He). apply (Forall_flat_map_inv _ _ _ H e He).
+    - cbn [check_variables_in_value]. rewrite deep_obj_unfold in H. revert H.
+      induction fs as [|[k fv] r IHr]; intros H; [reflexivity|].
+      inversion IHfs as [|? ? Hk Hr]; subst. cbn [flat_map snd] in H. apply Forall_app in H as [H1 H2].
+      cbn [snd] in Hk. specialize (Hk H1). specialize (IHr Hr H2). cbn. cbn in IHr. rewrite Hk, IHr. reflexivity.
+  Qed.
+
   Lemma resolves_named n : resolves S (TNamed n) = true -> exists td, get_type S (iname n) = Some td /\ is_input_type td = true.
   Proof.
     unfold resolves. cbn [ty_unwrapped]. rewrite <- get_type_sp.
@@ -109,26 +161,36 @@ Section ValueComplete.
     is_var v = false -> resolves S (TNamed n) = true ->
     match v with
     | VObject _ fs =>
-        Forall (fun kv => forall t ld, resolves S t = true -> lit_ok S (snd kv) t = true ->
-                                       Forall use_strict (var_uses false S (snd kv) (Some t) ld) ->
-                                       check_value S vars (snd kv) t = []) fs
-        /\ Forall use_strict (obj_uses S (input_defs S (TNamed n)) fs)
+        Forall (fun kv => forall t, resolves S t = true -> lit_ok S (snd kv) t = true ->
+                                    Forall (use_ok vars) (var_uses false S (snd kv) (Some t) false) ->
+                                    check_value S vars (snd kv) t = []) fs
     | _ => True
     end ->
+    Forall (use_ok vars) (var_uses false S v (Some (TNamed n)) false) ->
     lit_ok S v (TNamed n) = true ->
-    check_named S (check_value S vars) v (TNamed n) n = [].
+    check_named S vars (check_value S vars) v (TNamed n) n = [].
   Proof.
-    intros Hv Hres IH Hlit. destruct (resolves_named n Hres) as [td [Eg Hin]].
+    intros Hv Hres IH Huses Hlit. destruct (resolves_named n Hres) as [td [Eg Hin]].
     rewrite (lo_named S v n Hv) in Hlit. unfold check_named. rewrite Eg.
     destruct (value_is_null v) eqn:Enull.
     { destruct v; try discriminate. destruct td; try discriminate Hin; cbn zeta; try reflexivity.
-      rewrite scalar_accepts_null. reflexivity. }
+      rewrite scalar_accepts_null. destruct (is_builtin_scalar (iname name)); reflexivity. }
     assert (G : lit_named (lit_ok S) S v n = true) by (destruct v; try exact Hlit; discriminate).
     clear Hlit. unfold lit_named in G. rewrite <- get_type_sp, Eg in G.
     destruct td as [d p name dirs kw|d p name impls dirs fs' kw|d p name impls dirs fs' kw|d p name dirs mem' kw
                    |d p name dirs vals kw|d p name dirs fields kw]; try discriminate Hin; cbn zeta.
-    - rewrite (scalar_complete _ _ Hv G). reflexivity.
-    - destruct v; try discriminate.
+    - (* scalar *)
+      destruct (is_builtin_scalar (iname name)) eqn:Eb; [rewrite (scalar_complete _ _ Hv G); reflexivity|].
+      assert (Hc : custom_scalar S (TNamed n) = true).
+      { unfold custom_scalar. rewrite <- get_type_sp, Eg, <- builtin_agree, Eb. reflexivity. }
+      destruct v as [vn vp|q l|q l|q l|q bb|q|q l|q vs|q fs]; try reflexivity; try discriminate Hv.
+      + rewrite list_uses_unfold in Huses. cbn [strip_nonnull] in Huses. rewrite Hc in Huses.
+        apply cviv_complete. rewrite deep_list_unfold. exact Huses.
+      + rewrite obj_uses_unfold in Huses. cbn [unwrap_lists] in Huses. rewrite Hc in Huses.
+        apply cviv_complete. rewrite deep_obj_unfold.
+        unfold obj_uses, input_defs in Huses. cbn [unwrap_lists] in Huses. rewrite <- get_type_sp, Eg in Huses. exact Huses.
+    - (* enum *)
+      destruct v; try discriminate.
       assert (E : forallb (fun ev => negb (str_eqb (iname (ev_name ev)) v)) vals = false).
       { apply mem_In, in_map_iff in G as [e [He Hine]]. clear -He Hine.
         induction vals as [|x vals IHv]; [contradiction|]. cbn [forallb].
@@ -136,114 +198,94 @@ Section ValueComplete.
         - rewrite He, str_eqb_refl. reflexivity.
         - rewrite (IHv Hine). apply andb_false_r. }
       rewrite E. reflexivity.
-    - destruct v as [| | | | | | | |q fs]; try discriminate.
-      destruct IH as [IHfs Huses].
-      rewrite !andb_true_iff in G. destruct G as [[Glit Gnd] Greq].
-      apply nodup_str_NoDup in Gnd. fold (keys fs) in Gnd, Greq.
-      pose proof (wf_input S _ _ _ _ _ _ _ Hwf Eg) as Hnd.
+    - (* input object *)
+      destruct v as [| | | | | | | |q fs]; try discriminate.
+      rewrite andb_true_iff in G. destruct G as [Glit Greq]. fold (keys fs) in Greq.
+      destruct (wf_input_both S _ _ _ _ _ _ _ Hwf Eg) as [Hnd Hty].
       pose proof (lit_fields_inv _ _ _ Glit) as Hl.
+      rewrite obj_uses_unfold in Huses. unfold input_defs, obj_uses in Huses. cbn [unwrap_lists] in Huses.
+      rewrite <- get_type_sp, Eg in Huses.
       unfold input_object_check. cbn zeta.
       pose proof (io_fold (check_value S vars) fs fields (mkIo [] true [] 0)) as [F1 [F2 F3]].
       cbn zeta in F1, F2, F3. cbn [io_errs io_res io_seen app andb Nat.add] in F1, F2, F3.
       rewrite F1, F2, F3.
-      assert (Herrs : flat_map (ef_errs (check_value S vars) fs) fields = []).
-      { assert (Hall : forall ef, In ef fields -> ef_errs (check_value S vars) fs ef = []).
-        { intros ef Hef. unfold ef_errs.
-          destruct (find_val (fun fv => check_value S vars fv (iv_type ef)) (iname (iv_name ef)) fs) as [es|] eqn:Efv;
-            [|reflexivity].
-          apply find_val_some_first in Efv as [k' [v' [Hfind ->]]].
-          apply find_some in Hfind as [Hin' Hname]. cbn in Hname. apply str_eqb_eq in Hname.
-          destruct (Hl k' v' Hin') as [dd [Hfd Hlo]].
-          pose proof (find_some _ _ Hfd) as [Hdin Hdn]. apply str_eqb_eq in Hdn.
-          assert (Edd : dd = ef).
-          { apply (NoDup_map_inj (fun d0 => iname (iv_name d0)) fields); auto. cbn. congruence. }
-          subst dd. rewrite Forall_forall in IHfs.
-          apply (IHfs (k', v') Hin' (iv_type ef) (match iv_default ef with Some _ => true | None => false end)).
-          - apply (wf_closed S _ _ _ _ _ _ _ Hclosed Eg ef Hef).
-          - exact Hlo.
-          - unfold obj_uses, input_defs in Huses. cbn [unwrap_lists] in Huses. rewrite <- get_type_sp, Eg in Huses.
-            pose proof (Forall_flat_map_inv _ _ _ Huses (k', v') Hin') as Hu. cbn [fst snd] in Hu.
-            rewrite Hfd in Hu. exact Hu. }
-        clear -Hall. induction fields as [|ef fields IHf]; [reflexivity|]. cbn [flat_map].
-        rewrite (Hall ef (or_introl eq_refl)). cbn [app]. apply IHf. intros x Hx. apply Hall. right. exact Hx. }
+      assert (Herrs : flat_map (fun ef => concat (ef_vals (check_value S vars) fs ef)) fields = []).
+      { apply flat_map_all_nil'. intros ef Hef. apply concat_all_nil. intros y Hy.
+        unfold ef_vals in Hy. apply filter_vals_In in Hy as [k' [v' [Hin' [Hname ->]]]].
+        destruct (Hl k' v' Hin') as [dd [Hfd Hlo]].
+        pose proof (find_some _ _ Hfd) as [Hdin Hdn]. apply str_eqb_eq in Hdn.
+        assert (Edd : dd = ef).
+        { apply (NoDup_map_inj (fun d0 => iname (iv_name d0)) fields); auto. cbn. congruence. }
+        subst dd.
+        pose proof (Forall_flat_map_inv _ _ _ Huses (k', v') Hin') as Hu. cbn [fst snd] in Hu. rewrite Hfd in Hu.
+        destruct (is_var v') eqn:Evar.
+        - destruct v' as [vn vp| | | | | | | |]; try discriminate Evar. rewrite cv_var.
+          apply (var_loc_complete ef vn vp (Hty ef Hef)). cbn [var_uses] in Hu. inversion Hu; subst. assumption.
+        - rewrite (loc_type_nonvar ef v' Evar). rewrite Forall_forall in IH.
+          apply (IH (k', v') Hin' (iv_type ef)).
+          + apply (wf_closed S _ _ _ _ _ _ _ Hclosed Eg ef Hef).
+          + exact Hlo.
+          + rewrite (var_uses_ld false S v' _ _ Evar) in Hu. exact Hu. }
       rewrite Herrs. cbn [app].
       assert (Hok : forallb (ef_ok fs) fields = true).
       { apply forallb_forall. intros ef Hef. rewrite forallb_forall in Greq. specialize (Greq ef Hef).
         unfold ef_ok. rewrite orb_comm. exact Greq. }
       rewrite Hok.
-      assert (Hlen : length fs <= length (filter (fun ef => mem (iname (iv_name ef)) (keys fs)) fields)).
-      { rewrite <- (map_length (fun kv => iname (fst kv)) fs). fold (keys fs).
-        rewrite <- (map_length (fun d0 => iname (iv_name d0)) (filter _ fields)).
-        apply NoDup_incl_length; [exact Gnd|]. intros k Hk.
-        unfold keys in Hk. apply in_map_iff in Hk as [[k0 v0] [<- Hin0]]. cbn [fst].
+      assert (Hlen : length fs <= sumc (map (fun ef => iname (iv_name ef)) fields) (keys fs)).
+      { rewrite <- (map_length (fun kv => iname (fst kv)) fs). fold (keys fs). apply (sumc_defined_ge _ _ Hnd).
+        intros k Hk. unfold keys in Hk. apply in_map_iff in Hk as [[k0 v0] [<- Hin0]]. cbn [fst].
         destruct (Hl k0 v0 Hin0) as [dd [Hfd _]]. pose proof (find_some _ _ Hfd) as [Hdin Hdn]. apply str_eqb_eq in Hdn.
-        apply in_map_iff. exists dd. split; [exact Hdn|]. apply filter_In. split; [exact Hdin|].
-        rewrite Hdn. apply mem_In. unfold keys. apply in_map_iff. exists (k0, v0). auto. }
+        apply in_map_iff. exists dd. auto. }
       apply Nat.ltb_ge in Hlen. rewrite Hlen. reflexivity.
   Qed.
 
-  Theorem check_value_complete : forall v t ld,
+  Theorem check_value_complete : forall v t,
     resolves S t = true -> lit_ok S v t = true ->
-    Forall use_strict (var_uses false S v (Some t) ld) ->
+    Forall (use_ok vars) (var_uses false S v (Some t) false) ->
     check_value S vars v t = [].
   Proof.
-    induction v as [n p|p l|p l|p l|p b|p|p l|p vs IHvs|p fs IHfs] using value_ind'; intros t ld Hres Hlit Hu.
-    - rewrite cv_var. cbn [var_uses] in Hu. inversion Hu as [|? ? Hu1 _]; subst.
-      apply (variable_complete n p t ld Hu1).
-    - induction t as [n|i IHt|q i IHt].
-      + rewrite cv_named by reflexivity. apply named_complete; auto.
-      + rewrite cv_nonnull by reflexivity. rewrite lo_nonnull in Hlit by reflexivity. apply IHt; auto.
-      + rewrite cv_list by reflexivity. rewrite lo_list in Hlit by reflexivity. apply IHt; auto.
-    - induction t as [n|i IHt|q i IHt].
-      + rewrite cv_named by reflexivity. apply named_complete; auto.
-      + rewrite cv_nonnull by reflexivity. rewrite lo_nonnull in Hlit by reflexivity. apply IHt; auto.
-      + rewrite cv_list by reflexivity. rewrite lo_list in Hlit by reflexivity. apply IHt; auto.
-    - induction t as [n|i IHt|q i IHt].
-      + rewrite cv_named by reflexivity. apply named_complete; auto.
-      + rewrite cv_nonnull by reflexivity. rewrite lo_nonnull in Hlit by reflexivity. apply IHt; auto.
-      + rewrite cv_list by reflexivity. rewrite lo_list in Hlit by reflexivity. apply IHt; auto.
-    - induction t as [n|i IHt|q i IHt].
-      + rewrite cv_named by reflexivity. apply named_complete; auto.
-      + rewrite cv_nonnull by reflexivity. rewrite lo_nonnull in Hlit by reflexivity. apply IHt; auto.
-      + rewrite cv_list by reflexivity. rewrite lo_list in Hlit by reflexivity. apply IHt; auto.
-    - (* null *)
-      destruct t as [n|i|q i].
-      + rewrite cv_named by reflexivity. apply named_complete; auto.
-      + rewrite lo_nonnull in Hlit by reflexivity. discriminate.
-      + rewrite cv_list by reflexivity. reflexivity.
-    - induction t as [n|i IHt|q i IHt].
-      + rewrite cv_named by reflexivity. apply named_complete; auto.
-      + rewrite cv_nonnull by reflexivity. rewrite lo_nonnull in Hlit by reflexivity. apply IHt; auto.
-      + rewrite cv_list by reflexivity. rewrite lo_list in Hlit by reflexivity. apply IHt; auto.
+    assert (Hatom : forall v, is_var v = false -> (match v with VList _ _ | VObject _ _ => False | _ => True end) ->
+              forall t, resolves S t = true -> lit_ok S v t = true -> check_value S vars v t = []).
+    { intros v Hv Hshape t. induction t as [n|i IHt|q i IHt]; intros Hres Hlit.
+      - rewrite cv_named by exact Hv. apply named_complete; auto; destruct v; try exact I; try contradiction; try discriminate Hv; constructor.
+      - rewrite cv_nonnull by exact Hv. rewrite lo_nonnull in Hlit by exact Hv.
+        destruct v; try contradiction; try discriminate Hv; try discriminate Hlit; apply IHt; auto.
+      - rewrite cv_list by exact Hv. rewrite lo_list in Hlit by exact Hv.
+        destruct v; try contradiction; try discriminate Hv; try reflexivity; apply IHt; auto. }
+    induction v as [n p|p l|p l|p l|p b|p|p l|p vs IHvs|p fs IHfs] using value_ind'; intros t Hres Hlit Hu;
+      try (apply Hatom; [reflexivity | exact I | exact Hres | exact Hlit]).
+    - rewrite cv_var. cbn [var_uses] in Hu. inversion Hu as [|? ? Hu1 _]; subst. apply (variable_complete n p t Hu1).
     - (* list *)
       rewrite Forall_forall in IHvs.
       induction t as [n|i IHt|q i IHt].
       + rewrite cv_named by reflexivity. apply named_complete; auto.
-      + rewrite cv_nonnull by reflexivity. rewrite lo_nonnull in Hlit by reflexivity.
-        apply IHt; auto.
+      + rewrite cv_nonnull by reflexivity. rewrite lo_nonnull in Hlit by reflexivity. apply IHt; auto.
       + rewrite cv_list by reflexivity. rewrite lo_list in Hlit by reflexivity.
         rewrite list_uses_unfold in Hu. cbn [strip_nonnull] in Hu.
         rewrite forallb_forall in Hlit.
-        assert (Hall : forall e, In e vs -> check_value S vars e i = []).
-        { intros e He. apply (IHvs e He i false); auto. apply (Forall_flat_map_inv _ _ _ Hu e He). }
-        clear -Hall. induction vs as [|e vs IHl]; [reflexivity|]. cbn [flat_map].
-        rewrite (Hall e (or_introl eq_refl)). cbn [app]. apply IHl. intros x Hx. apply Hall. right. exact Hx.
+        apply flat_map_all_nil'. intros e He. apply (IHvs e He i); auto. apply (Forall_flat_map_inv _ _ _ Hu e He).
     - (* object *)
       induction t as [n|i IHt|q i IHt].
-      + rewrite cv_named by reflexivity. apply named_complete; auto. split.
-        * apply Forall_forall. intros kv Hin t' ld' Hr' Hl' Hu'. rewrite Forall_forall in IHfs.
-          apply (IHfs kv Hin t' ld' Hr' Hl' Hu').
-        * rewrite obj_uses_unfold in Hu. exact Hu.
-      + rewrite cv_nonnull by reflexivity. rewrite lo_nonnull in Hlit by reflexivity.
-        apply IHt; auto.
-      + rewrite cv_list by reflexivity. rewrite lo_list in Hlit by reflexivity.
-        apply IHt; auto.
+      + rewrite cv_named by reflexivity. apply named_complete; auto.
+      + rewrite cv_nonnull by reflexivity. rewrite lo_nonnull in Hlit by reflexivity. apply IHt; auto.
+      + rewrite cv_list by reflexivity. rewrite lo_list in Hlit by reflexivity. apply IHt; auto.
+  Qed.
+
+  (** a value given for an argument / input field: the converse of [value_at_location] *)
+  Lemma value_at_location_complete d v :
+    ty_wf (iv_type d) = true -> resolves S (iv_type d) = true ->
+    lit_ok S v (iv_type d) = true ->
+    Forall (use_ok vars) (var_uses false S v (Some (iv_type d)) (has_default d)) ->
+    check_value S vars v (loc_type d v) = [].
+  Proof.
+    intros Hty Hres Hlit Hu. destruct (is_var v) eqn:Ev.
+    - destruct v as [n p| | | | | | | |]; try discriminate Ev. rewrite cv_var.
+      apply (var_loc_complete d n p Hty). cbn [var_uses] in Hu. inversion Hu; subst. assumption.
+    - rewrite (loc_type_nonvar d v Ev). apply check_value_complete; auto. rewrite (var_uses_ld false S v _ _ Ev) in Hu. exact Hu.
   Qed.
 End ValueComplete.
 
 (** * check_arguments is complete for the argument rules *)
-From V Require Import C03.Proofs3.
-
 Section ArgsComplete.
   Variable S : tsdoc.
   Variable vars : option vardefs.
@@ -251,21 +293,22 @@ Section ArgsComplete.
   Hypothesis Hclosed : input_types_closed S = true.
 
   Lemma flat_map_all_nil {A B} (f : A -> list B) l : (forall x, In x l -> f x = []) -> flat_map f l = [].
-  Proof.
-    induction l as [|a l IH]; intros H; [reflexivity|]. cbn [flat_map].
-    rewrite (H a (or_introl eq_refl)). apply IH. intros x Hx. apply H. right. exact Hx.
-  Qed.
+  Proof. apply flat_map_all_nil'. Qed.
 
   Theorem check_arguments_complete ppos pname kind args defs :
+    NoDup (def_names defs) -> (forall d, In d defs -> ty_wf (iv_type d) = true) ->
     (forall d, In d defs -> resolves S (iv_type d) = true) ->
     (forall a, args = Some a -> args_list a <> []) ->
     args_defined_ok (provided args, defs) = true ->
     required_args_ok (provided args, defs) = true ->
     literal_types_vis S (provided args, defs) = true ->
-    Forall (use_strict vars) (args_var_uses false S (provided args) defs) ->
+    Forall (use_ok vars) (args_var_uses false S (provided args) defs) ->
     check_arguments S vars ppos pname kind args defs = [].
   Proof.
-    intros Hres Hne Hdef Hreq Hlit Huses. unfold check_arguments.
+    intros Hnd Hty Hres Hne Hdef Hreq Hlit Huses. unfold check_arguments.
+    assert (Hdefined : forall kv, In kv (provided args) -> In (iname (fst kv)) (def_names defs)).
+    { intros kv Hin. unfold args_defined_ok in Hdef. cbn [fst snd] in Hdef. rewrite forallb_forall in Hdef.
+      apply mem_In. apply (Hdef kv Hin). }
     assert (Hmain : forall apos,
       (let st := fold_left (arg_step S vars apos (provided args)) defs ([], 0) in
        fst st ++ (if Nat.ltb (snd st) (length (provided args)) then
@@ -275,21 +318,28 @@ Section ArgsComplete.
     { intros apos. cbn zeta. rewrite arg_fold. cbn [fst snd app Nat.add].
       assert (H1 : flat_map (ad_errs S vars apos (provided args)) defs = []).
       { apply flat_map_all_nil. intros ad Hin. unfold ad_errs, arg_step.
-        unfold required_args_ok in Hreq. cbn [fst snd] in Hreq. rewrite forallb_forall in Hreq. specialize (Hreq ad Hin).
-        unfold literal_types_vis in Hlit. cbn [fst snd] in Hlit. rewrite forallb_forall in Hlit. specialize (Hlit ad Hin).
-        unfold args_var_uses in Huses. pose proof (Forall_flat_map_inv _ _ _ Huses ad Hin) as Hu.
-        unfold arg_for in *.
-        destruct (find (fun kv => str_eqb (iname (iv_name ad)) (iname (fst kv))) (provided args)) as [kv|] eqn:Ef.
-        - cbn [fst app]. apply (check_value_complete S vars Hwf Hclosed _ _ (has_default ad)); auto.
-        - apply find_arg_none in Ef. unfold arg_keys in Ef. rewrite Ef, orb_false_r in Hreq.
-          rewrite required_input_eq in Hreq.
+        pose proof (filter_args_length (iname (iv_name ad)) (provided args)) as Hlen.
+        destruct (filter (fun kv => str_eqb (iname (iv_name ad)) (iname (fst kv))) (provided args)) as [|m ms] eqn:Ef.
+        - unfold required_args_ok in Hreq. cbn [fst snd] in Hreq. rewrite forallb_forall in Hreq. specialize (Hreq ad Hin).
+          cbn [length] in Hlen. symmetry in Hlen. apply count_key_zero in Hlen. unfold keys in Hlen.
+          rewrite Hlen, orb_false_r in Hreq. rewrite required_input_eq in Hreq.
           destruct (ty_is_nonnull (iv_type ad)); cbn [negb andb] in *; [|reflexivity].
-          destruct (iv_default ad); cbn in *; [reflexivity | discriminate]. }
+          destruct (iv_default ad); cbn in *; [reflexivity | discriminate].
+        - cbn [fst app]. apply flat_map_all_nil. intros kv Hkv. rewrite <- Ef in Hkv. apply filter_In in Hkv as [Hkv Hn].
+          apply str_eqb_eq in Hn.
+          assert (Hf : find (fun d0 => str_eqb (iname (iv_name d0)) (iname (fst kv))) defs = Some ad).
+          { assert (Hex : In (iname (fst kv)) (map (fun d0 => iname (iv_name d0)) defs)) by (apply (Hdefined kv Hkv)).
+            destruct (find_by_name defs _ Hex) as [d' [Hf [Hd' Hn']]]. rewrite Hf. f_equal.
+            apply (NoDup_map_inj (fun d0 => iname (iv_name d0)) defs); auto. cbn. congruence. }
+          apply (value_at_location_complete S vars Hwf Hclosed ad (snd kv) (Hty ad Hin) (Hres ad Hin)).
+          + unfold literal_types_vis, literal_types_ok in Hlit. cbn [fst snd] in Hlit. rewrite forallb_forall in Hlit.
+            specialize (Hlit kv Hkv). rewrite Hf in Hlit. exact Hlit.
+          + unfold args_var_uses in Huses. pose proof (Forall_flat_map_inv _ _ _ Huses kv Hkv) as Hu. cbn beta in Hu.
+            rewrite Hf in Hu. exact Hu. }
       rewrite H1. cbn [app].
       destruct (Nat.ltb _ (length (provided args))); [|reflexivity].
       apply flat_map_all_nil. intros kv Hin.
-      unfold args_defined_ok in Hdef. cbn [fst snd] in Hdef. rewrite forallb_forall in Hdef. specialize (Hdef kv Hin).
-      apply mem_In, in_map_iff in Hdef as [ad [Hn Hadin]].
+      pose proof (Hdefined kv Hin) as Hd. apply in_map_iff in Hd as [ad [Hn Hadin]].
       assert (E : forallb (fun ad0 => negb (str_eqb (iname (iv_name ad0)) (iname (fst kv)))) defs = false).
       { clear -Hn Hadin. induction defs as [|x l IH]; [contradiction|]. cbn [forallb].
         destruct Hadin as [->|Hin]; [rewrite Hn, str_eqb_refl; reflexivity | rewrite (IH Hin); apply andb_false_r]. }
@@ -319,7 +369,7 @@ Section DirsComplete.
       /\ args_defined_ok (provided (dir_args d), dir_argdefs dd) = true
       /\ required_args_ok (provided (dir_args d), dir_argdefs dd) = true
       /\ literal_types_vis S (provided (dir_args d), dir_argdefs dd) = true
-      /\ Forall (use_strict vars) (args_var_uses false S (provided (dir_args d)) (dir_argdefs dd)).
+      /\ Forall (use_ok vars) (args_var_uses false S (provided (dir_args d)) (dir_argdefs dd)).
 
   Lemma check_directives_from_complete loc : forall ds seen,
     (forall d, In d ds -> directive_fine loc d) ->
@@ -337,8 +387,9 @@ Section DirsComplete.
       cbn [forallb map] in *. rewrite mem_cons, (str_eqb_sym loc) in Hloc.
       destruct (str_eqb (iname l) loc); cbn [negb andb orb] in *; [reflexivity | apply IHl, Hloc]. }
     rewrite E1. cbn [app].
+    destruct (wf_directive_both S _ dd Hwf (eq_trans (get_directive_sp S _) Esp)) as [Hnd' Hty'].
     rewrite (check_arguments_complete S vars Hwf Hclosed (dir_pos d) (iname (dir_name d)) str_directive
-               (dir_args d) (dd_argdefs dd) Hres Hne A1 A2 A3 A4). cbn [app].
+               (dir_args d) (dd_argdefs dd) Hnd' Hty' Hres Hne A1 A2 A3 A4). cbn [app].
     destruct (dd_repeatable dd) as [r|] eqn:Er.
     - (* repeatable *)
       cbn [app] in Hnd, Hseen.
